@@ -2,6 +2,7 @@
 C06  Kernel hook redirects exactly the protected connects, records the true caller.
 -/
 import Gpa.Model.Ebpf
+import Gpa.Model.Attach
 import Gpa.Generated.Facts
 namespace Gpa.Props.C06
 open Gpa.Ebpf
@@ -243,5 +244,38 @@ def exState : State :=
 def exThread : Thread := { pidTgid := 1000 * 2 ^ 32 + 1001, uidGid := 5 * 2 ^ 32 + 1000 }
 example : (connect4 exState exThread (netIp 168 63 129 16) (bswap16 80) 6).2 = (netIp 127 0 0 1, bswap16 3080) := by decide
 example : (connect4 exState exThread (netIp 168 63 129 16) (bswap16 81) 6).2 = (netIp 168 63 129 16, bswap16 81) := by decide
+
+/-! ### where the hook is attached -/
+section attach
+open Gpa.Attach
+
+/-- the agent attaches at the first cgroup2 mount findmnt lists, and at the configured root when the lookup
+gives nothing -/
+theorem attach_point_is_first_listed (m : Mount) (ms : List Mount) (cfg : Mount) :
+    attachPoint (.listed (m :: ms)) cfg = m ∧ attachPoint (.listed []) cfg = cfg ∧ attachPoint .failed cfg = cfg :=
+  ⟨rfl, rfl, rfl⟩
+
+/-- **C06(attach)** when the first mount listed (the one the system made at boot) is the whole hierarchy, the
+connect hook runs for every process, whatever cgroup it lives in and whatever else is mounted later -/
+theorem hook_runs_for_every_process (m : Mount) (ms : List Mount) (cfg : Mount) (h : m.top = []) (c : Cg) :
+    hooked (attachPoint (.listed (m :: ms)) cfg).top c = true := by
+  show hooked m.top c = true
+  rw [h]; unfold hooked; cases c <;> rfl
+
+/-- an attach point that is not the whole hierarchy leaves some process unhooked -/
+theorem sub_cgroup_misses_a_process (a : Cg) (h : a ≠ []) : ∃ c : Cg, hooked a c = false := by
+  refine ⟨[], ?_⟩
+  cases a with
+  | nil => exact absurd rfl h
+  | cons x xs => rfl
+
+/-- negative witness: choosing the LAST mount listed attaches below the root as soon as a sub-directory of the
+hierarchy is bind-mounted somewhere, and a process outside that sub-directory is then never redirected -/
+theorem last_listed_misses :
+    let l := Lookup.listed [⟨"/sys/fs/cgroup", []⟩, ⟨"/run/c/cgroup", ["system.slice", "c.service"]⟩]
+    (lastListed l).map (fun m => hooked m.top ["user.slice"]) = some false ∧
+    (mountPath l).map (fun m => hooked m.top ["user.slice"]) = some true := by decide
+
+end attach
 
 end Gpa.Props.C06
